@@ -96,19 +96,57 @@ def replay_one(sc, streams, order):
             self.it = iter(order)
 
         def get(self, *a, **k):
-            try:
-                w, i = next(self.it)
-            except StopIteration:
-                raise RuntimeError("parent read beyond the schedule")
+            if getattr(self, "_peek", None) is not None:
+                (w, i), self._peek = self._peek, None
+            else:
+                try:
+                    w, i = next(self.it)
+                except StopIteration:
+                    if k.get("block", True) is False or (a and a[0] is False):
+                        import queue
+                        raise queue.Empty()
+                    raise RuntimeError("parent read beyond the schedule")
             gets.append([w, i])
             m = streams[w - 1][i - 1]
             return (m[0], None if m[1] is None else np.array(m[1]), problems.engine_stats(m[2]))
 
+        def get_nowait(self):
+            # a parent that drains the queue without blocking sees the next scheduled message, if any
+            import queue
+            try:
+                return self.get()
+            except RuntimeError:
+                raise queue.Empty()
+
         def put(self, x):
             pass
 
+        def put_nowait(self, x):
+            pass
+
         def empty(self):
-            return True
+            return self.peeked() is None
+
+        def qsize(self):
+            return 0 if self.peeked() is None else 1
+
+        def peeked(self):
+            if getattr(self, "_peek", None) is None:
+                try:
+                    self._peek = next(self.it)
+                except StopIteration:
+                    self._peek = None
+                    return None
+            return self._peek
+
+        def close(self):
+            pass
+
+        def join_thread(self):
+            pass
+
+        def cancel_join_thread(self):
+            pass
 
     solvers = [DummySolver() for _ in streams] if sc.get("synthetic") else make_solvers(sc)[0]
     mps.Queue = FakeQueue
